@@ -232,3 +232,178 @@ Section Structure.
       unfold ensure_weighted. rewrite Hw. reflexivity.
   Qed.
 End Structure.
+
+(* ====================================================================================== *)
+(* square_clustering on EVERY kind of graph (C11 proves it, with the value, for undirected
+   ones): the function has no error channel; on names of the graph it returns.  The only
+   Panic sites are the unwrap inside get_successors_or_neighbors, reached only with a name
+   that is not a node, and every name the loops look up is a successor / neighbour of a
+   node, hence a node; the `potential` sum is signed since the repair of F15. *)
+Section SquareAnyKind.
+  Context {T A : Type}.
+  Variable teqb : T -> T -> bool.
+  Variable tltb : T -> T -> bool.
+  Hypothesis teqb_spec : forall x y, teqb x y = true <-> x = y.
+  Hypothesis tltb_asym : forall x y, tltb x y = true -> tltb y x = false.
+  Hypothesis tltb_total : forall x y, tltb x y = false -> tltb y x = false -> x = y.
+  Notation gstate := (gstate T A).
+  Notation WF := (@WF T A teqb tltb).
+
+  Variable g : gstate.
+  Hypothesis W : WF g.
+
+  Lemma son_total x : In x (names g) ->
+    exists l, get_successors_or_neighbors teqb g x = Ok l /\ forall y, In y (map nname l) -> In y (names g).
+  Proof.
+    intros Hx. unfold get_successors_or_neighbors. destruct (directed (sp g)) eqn:Hd.
+    - destruct (get_successor_nodes_spec teqb tltb g x W Hd Hx) as (l & -> & _ & Hm).
+      exists l. split; [reflexivity|]. intros y Hy. apply Hm in Hy.
+      destruct (group teqb g (x, y)) as [grp|] eqn:Eg; [|congruence].
+      destruct (wf_egroup _ _ _ W (x, y) grp Eg) as (_ & _ & _ & H & _). exact H.
+    - destruct (get_neighbor_nodes_spec teqb tltb g x W Hx) as (l & -> & _ & Hm).
+      exists l. split; [reflexivity|]. intros y Hy. apply Hm in Hy. apply Hy.
+  Qed.
+
+  Lemma gnos_total x : In x (names g) ->
+    exists l, gnos teqb g x = Ok l.
+  Proof. intros Hx. unfold gnos. destruct (son_total x Hx) as (l & -> & _). cbn [bind]. eauto. Qed.
+
+  Lemma combination_total v u w : In u (names g) -> In w (names g) ->
+    exists c, coefficient_for_combination teqb g v u w = Ok c.
+  Proof.
+    intros Hu Hw. unfold coefficient_for_combination.
+    destruct (gnos_total u Hu) as (lu & ->). destruct (gnos_total w Hw) as (lw & ->). cbn [bind]. eauto.
+  Qed.
+
+  Lemma pairs_in {X} (l : list X) p : In p (pairs l) -> In (fst p) l /\ In (snd p) l.
+  Proof.
+    induction l as [|x t IH]; [intros []|]. cbn [pairs]. intros H. apply in_app_or in H. destruct H as [H|H].
+    - apply in_map_iff in H. destruct H as (y & <- & Hy). cbn [fst snd]. split; [left; reflexivity|right; exact Hy].
+    - destruct (IH H) as (H1 & H2). split; right; assumption.
+  Qed.
+
+  Lemma coefficient_for_node_total v : In v (names g) -> exists c, coefficient_for_node teqb g v = Ok c.
+  Proof.
+    intros Hv. unfold coefficient_for_node. destruct (son_total v Hv) as (l & -> & Hl). cbn [bind].
+    set (nbrs := filter (fun n => negb (teqb n v)) (map nname l)).
+    assert (Hn : forall y, In y nbrs -> In y (names g)).
+    { intros y Hy. apply filter_In in Hy. apply Hl. apply Hy. }
+    destruct (omapM_total (fun p => coefficient_for_combination teqb g v (fst p) (snd p)) (pairs nbrs)) as (cs & ->).
+    { intros p Hp. apply pairs_in in Hp. apply combination_total; apply Hn; apply Hp. }
+    cbn [bind]. destruct (Z.ltb 0 _); eauto.
+  Qed.
+
+  Theorem square_clustering_total_any nn :
+    (forall l, nn = Some l -> forall v, In v l -> In v (get_all_node_names g)) ->
+    exists m, square_clustering teqb g nn = Ok m.
+  Proof.
+    intros Hp. unfold square_clustering.
+    destruct (omapM_total (coefficient_for_node teqb g)
+                (match nn with None => get_all_node_names g | Some l => l end)) as (kvs & ->).
+    { intros v Hv. apply coefficient_for_node_total. destruct nn as [l|]; [apply (Hp l eq_refl v Hv)|exact Hv]. }
+    cbn [bind]. eauto.
+  Qed.
+End SquareAnyKind.
+
+(* ====================================================================================== *)
+(* is_partition / modularity (partitions.rs), C12 *)
+From GV Require Import Spec.PartitionDef Proofs.PartitionOk Proofs.PartitionStateOk Proofs.ModularityStateOk.
+
+Definition modularity_domain_site : string :=
+  "model: infinite intermediate value (negative weights), outside the modelled domain".
+
+Section PartitionTotal.
+  Context {T A : Type}.
+  Variable teqb : T -> T -> bool.
+  Variable tltb : T -> T -> bool.
+  Hypothesis teqb_spec : forall x y, teqb x y = true <-> x = y.
+  Hypothesis tltb_asym : forall x y, tltb x y = true -> tltb y x = false.
+  Hypothesis tltb_total : forall x y, tltb x y = false -> tltb y x = false -> x = y.
+  Notation gstate := (gstate T A).
+  Notation WF := (@WF T A teqb tltb).
+
+  (* is_partition has no error channel (it returns bool): every family of name lists - foreign
+     names, repetitions, empty sets included - is answered *)
+  Theorem total_is_partition (g : gstate) comms : WF g ->
+    is_partition teqb g comms = Ok (is_partition_model teqb (get_all_node_names g) comms).
+  Proof. intros W. exact (is_partition_WF teqb tltb teqb_spec g comms W). Qed.
+
+  (* modularity, ANY weights: a family that is not a partition is refused with NotAPartition;
+     on a partition the call returns, except at the one model-domain site (total weight 0 while
+     some community term is not 0: the implementation then computes with inf, which the exact
+     model does not represent; needs a negative weight) - never another Panic site, never fuel *)
+  Theorem modularity_outcomes (g : gstate) comms weighted gamma : WF g ->
+    (is_partition_model teqb (get_all_node_names g) comms = false ->
+       modularity teqb tltb g comms weighted gamma = Err NotAPartition) /\
+    (is_partition_model teqb (get_all_node_names g) comms = true ->
+       (exists q, modularity teqb tltb g comms weighted gamma = Ok q) \/
+       modularity teqb tltb g comms weighted gamma = Panic modularity_domain_site).
+  Proof.
+    intros W. split.
+    - intros Hip. apply modularity_rejects. rewrite (is_partition_WF teqb tltb teqb_spec g comms W).
+      f_equal. exact Hip.
+    - intros Hip. change (get_all_node_names g) with (names g) in Hip.
+      assert (Hinc : forall c, In c comms -> incl c (names g)).
+      { intros c Hc x Hx. apply (is_partition_model_char teqb teqb_spec) in Hip. destruct Hip as (_ & Hi & _).
+        apply Hi. apply in_concat. exists c. split; assumption. }
+      unfold modularity. rewrite (is_partition_WF teqb tltb teqb_spec g comms W), Hip. cbn [bind negb].
+      destruct (directed (sp g)) eqn:Hd.
+      + destruct (out_keys teqb tltb teqb_spec g W weighted "partitions.rs:97" "partitions.rs:101" Hd) as (od & Hod & Kod).
+        destruct (in_keys teqb tltb teqb_spec g W weighted "partitions.rs:98" "partitions.rs:102" Hd) as (id & Hid & Kid).
+        rewrite Hod. cbn [bind]. rewrite Hid. cbn [bind].
+        destruct (parts_total teqb tltb teqb_spec tltb_total g W weighted "partitions.rs:125" "partitions.rs:127"
+                    od id Kod Kid comms Hinc) as (parts & Hparts).
+        rewrite Hd in Hparts. rewrite Hparts. cbn [bind].
+        repeat match goal with |- context [match ?x with _ => _ end] => destruct x end;
+          first [left; eexists; reflexivity | right; reflexivity].
+      + destruct (deg_keys teqb tltb teqb_spec tltb_total g W weighted) as (dg & Hdg & Kdg). rewrite Hdg. cbn [bind].
+        destruct (parts_total teqb tltb teqb_spec tltb_total g W weighted "partitions.rs:125" "partitions.rs:127"
+                    dg dg Kdg Kdg comms Hinc) as (parts & Hparts).
+        rewrite Hd in Hparts. cbn [bind] in Hparts. rewrite Hparts. cbn [bind].
+        repeat match goal with |- context [match ?x with _ => _ end] => destruct x end;
+          first [left; eexists; reflexivity | right; reflexivity].
+  Qed.
+
+  (* no stored weight is negative (NaN, i.e. an edge without weight, is allowed) *)
+  Definition no_negative_weight (g : gstate) : Prop :=
+    forall e z, In e (get_all_edges g) -> ew e = Some z -> (0 <= z)%Z.
+
+  Lemma has_nan_dec (l : list (edge T A)) :
+    (exists e, In e l /\ ew e = None) \/ (forall e, In e l -> exists z, ew e = Some z).
+  Proof.
+    induction l as [|e t [IH|IH]].
+    - right. intros e [].
+    - left. destruct IH as (e0 & H0 & E0). exists e0. split; [right; exact H0|exact E0].
+    - destruct (ew e) as [z|] eqn:Ez.
+      + right. intros e0 [<-|H0]; [eauto|apply IH; exact H0].
+      + left. exists e. split; [left; reflexivity|exact Ez].
+  Qed.
+
+  (* ... and FULL whenever no stored weight is negative (weighted = false: no hypothesis at all) *)
+  Theorem total_modularity (g : gstate) comms weighted gamma : WF g ->
+    (weighted = true -> no_negative_weight g) ->
+    if is_partition_model teqb (get_all_node_names g) comms
+    then exists q, modularity teqb tltb g comms weighted gamma = Ok q
+    else modularity teqb tltb g comms weighted gamma = Err NotAPartition.
+  Proof.
+    intros W Hnn. destruct (is_partition_model teqb (get_all_node_names g) comms) eqn:Hip.
+    2:{ apply (modularity_outcomes g comms weighted gamma W). exact Hip. }
+    change (get_all_node_names g) with (names g) in Hip.
+    assert (Hcase : (weighted = true /\ exists e, In e (get_all_edges g) /\ ew e = None) \/
+                    (weighted = true -> all_real (get_all_edges g))).
+    { destruct weighted; [|right; discriminate].
+      destruct (has_nan_dec (get_all_edges g)) as [H|H]; [left; split; [reflexivity|exact H]|right; intros _; exact H]. }
+    destruct Hcase as [(-> & He)|Hreal].
+    - rewrite (modularity_WF_nan teqb tltb teqb_spec tltb_total g comms gamma W Hip He). eauto.
+    - pose proof (wedges_of_total weighted (get_all_edges g) Hreal) as Hes.
+      set (es := map (toW weighted) (get_all_edges g)) in *.
+      destruct (Qeq_dec (total_w es) 0) as [Hz|Hz].
+      + rewrite (modularity_WF_zero teqb tltb teqb_spec tltb_total g comms weighted gamma es W Hes Hip); [eauto| |exact Hz].
+        intros e He. apply in_map_iff in He. destruct He as (e0 & <- & H0). unfold toW, ww, wq. cbn [snd].
+        destruct weighted; [|discriminate].
+        destruct (ew e0) as [z|] eqn:Ez; [|apply Qle_refl].
+        change 0%Q with (inject_Z 0). rewrite <- Zle_Qle. exact (Hnn eq_refl e0 z H0 Ez).
+      + destruct (modularity_WF_abs teqb tltb teqb_spec tltb_total g comms weighted gamma es W Hes Hip Hz) as (q & -> & _).
+        eauto.
+  Qed.
+End PartitionTotal.
